@@ -26,6 +26,20 @@ import SynKitProofs.Props.C06
 #print axioms SynKit.Match.isoDecide_relabel_pattern
 #print axioms SynKit.Match.isoDecide_symm
 #print axioms SynKit.Match.isoDecide_refl
+-- find_graph_isomorphism and the certificate checkers for large inputs (SynKitModel/FindIso.lean)
+#print axioms SynKit.GME.isIsoB_iff
+#print axioms SynKit.GME.isInducedB_iff
+#print axioms SynKit.GME.isMonoB_iff
+#print axioms SynKit.GME.isomorphic_of_certificate
+#print axioms SynKit.GME.get_mappings_of_certificate
+#print axioms SynKit.GME.no_iso_of_invariants
+#print axioms SynKit.GME.not_contained_of_invariants
+#print axioms SynKit.GME.isomorphic_false_of_invariants
+#print axioms SynKit.GME.find_iso_valid
+#print axioms SynKit.GME.find_iso_iff
+#print axioms SynKit.GME.find_iso_fast_irrelevant
+#print axioms SynKit.GME.find_iso_of_certificate
+#print axioms SynKit.GME.find_iso_none_of_invariants
 -- the pre-filter clause of C07 ("turning any cheap pre-filter on or off never changes a result set")
 -- for `_quick_pre_filter` of the subgraph search rests on the C06 theorems about the model's pre-filter
 #print axioms SynKit.SubgraphSearch.prefilter_spec
